@@ -395,7 +395,9 @@ pub fn c05(tier: &str) -> ! {
     if t {
         run_sched(&mut rep, "outcomes-under-fault/p2d4", &c08_concurrent_programs(), (2, 4), 16, false, 2, Duration::from_secs(900), own_f);
     } else {
-        run_sched(&mut rep, "outcomes-under-fault/p1d3", &c08_concurrent_programs(), (1, 3), 4, false, 1, Duration::from_secs(10), own_f);
+        // (without the half-written-record variants: they are C08's, which runs the whole list)
+        let progs: Vec<Arc<Prog>> = c08_concurrent_programs().into_iter().filter(|p| !p.name.contains("half-written")).collect();
+        run_sched(&mut rep, "outcomes-under-fault/p1d3", &progs, (1, 3), 4, false, 1, Duration::from_secs(10), own_f);
     }
     for a in SCHED_ASSUMPTIONS {
         rep.assume(a);
@@ -411,7 +413,7 @@ pub fn c06(tier: &str) -> ! {
     if t {
         run_sched(&mut rep, "batches/p3d5", &c06_programs(), (3, 5), 16, true, 2, Duration::from_secs(2400), own);
     } else {
-        run_sched(&mut rep, "batches/p2d4", &c06_programs(), (2, 4), 8, true, 1, Duration::from_secs(32), own);
+        run_sched(&mut rep, "batches/p2d4", &c06_programs(), (2, 4), 8, true, 1, Duration::from_secs(42), own);
     }
     // a pinned reader behind a long run of newer versions of one of a batch's keys (sequence
     // explorer; the snapshot oracle is C03's, its clauses count as this check's own here)
